@@ -177,3 +177,17 @@ pub fn bysec(st: &State, fam: &str, rest: &str) -> String {
 		}
 	})
 }
+
+pub fn dispatch(st: &mut State, fam: &str, rest: &str) -> Option<String> {
+	Some(match fam {
+		"from_bytes" => from_bytes(st, rest),
+		"hdr" => hdr(st, rest),
+		"hdrw" => hdrw(st, rest),
+		"r2f" | "f2r" | "r2v" | "v2r" => addr(st, fam, rest),
+		"slice" => slice(st, rest),
+		"read" => read(st, rest),
+		"secbytes" => secbytes(st, rest),
+		"byrva" | "byname" => bysec(st, fam, rest),
+		_ => return None,
+	})
+}
